@@ -38,16 +38,84 @@ func genJwt() {
 		}
 		rows = append(rows, fmt.Sprintf("(%s, %s, %s)", leanStr(k), leanStr(d), leanStr(conv.Name)))
 	}
-	var order []string
-	if ov, ok := findVar(f, "jwtParamOrder").(*ast.CompositeLit); ok {
-		for _, e := range ov.Elts {
-			s, ok := strLit(e)
-			if !ok {
-				die("jwtParamOrder: element not a literal")
-			}
-			order = append(order, leanStr(s))
+	// the order lists: string-literal slices, or append(append([]string{}, A...), B...) of such lists
+	var listOf func(name string, depth int) []string
+	listOf = func(name string, depth int) []string {
+		if depth > 4 {
+			die("%s: definition too deep", name)
 		}
+		switch v := findVar(f, name).(type) {
+		case *ast.CompositeLit:
+			var out []string
+			for _, e := range v.Elts {
+				s, ok := strLit(e)
+				if !ok {
+					die("%s: element not a literal", name)
+				}
+				out = append(out, s)
+			}
+			return out
+		case *ast.CallExpr:
+			var out []string
+			var walk func(e ast.Expr)
+			walk = func(e ast.Expr) {
+				switch x := e.(type) {
+				case *ast.CallExpr:
+					if id, ok := x.Fun.(*ast.Ident); !ok || id.Name != "append" {
+						die("%s: unsupported call", name)
+					}
+					for _, a := range x.Args {
+						walk(a)
+					}
+				case *ast.Ident:
+					out = append(out, listOf(x.Name, depth+1)...)
+				case *ast.CompositeLit:
+					if len(x.Elts) != 0 {
+						die("%s: unsupported literal inside append", name)
+					}
+				default:
+					die("%s: unsupported expression", name)
+				}
+			}
+			walk(v)
+			return out
+		}
+		return nil
 	}
+	quote := func(l []string) []string {
+		var q []string
+		for _, s := range l {
+			q = append(q, leanStr(s))
+		}
+		return q
+	}
+	order := quote(listOf("jwtParamOrder", 0))
+	// which list each of HeaderAttributes / PayloadAttributes hands to jwtAttributes (the whole order when it takes none)
+	usedBy := func(method string) []string {
+		var out []string
+		for _, d := range f.Decls {
+			fd, ok := d.(*ast.FuncDecl)
+			if !ok || fd.Name.Name != method || fd.Recv == nil {
+				continue
+			}
+			ast.Inspect(fd.Body, func(n ast.Node) bool {
+				if c, ok := n.(*ast.CallExpr); ok {
+					if id, ok := c.Fun.(*ast.Ident); ok && id.Name == "jwtAttributes" {
+						if len(c.Args) >= 2 {
+							if a, ok := c.Args[1].(*ast.Ident); ok {
+								out = listOf(a.Name, 0)
+							}
+						} else {
+							out = listOf("jwtParamOrder", 0)
+						}
+					}
+				}
+				return true
+			})
+		}
+		return out
+	}
+	headerShown, payloadShown := quote(usedBy("HeaderAttributes")), quote(usedBy("PayloadAttributes"))
 	// does any function in the file range over a map-typed field Header/Payload?
 	rangesOverMap := false
 	ast.Inspect(f, func(n ast.Node) bool {
@@ -123,6 +191,8 @@ func genJwt() {
 	}
 	body := "def jwtParams : List (String × String × String) := [\n  " + strings.Join(rows, ",\n  ") + "]\n" +
 		"def jwtParamOrder : List String := [" + strings.Join(order, ", ") + "]\n" +
+		"def jwtHeaderShown : List String := [" + strings.Join(headerShown, ", ") + "]\n" +
+		"def jwtPayloadShown : List String := [" + strings.Join(payloadShown, ", ") + "]\n" +
 		fmt.Sprintf("def jwtRangesOverMap : Bool := %v\ndef jwtNullRejected : Bool := %v\ndef jwtNumericDates : Bool := %v\ndef jwtEmptyShown : Bool := %v\n",
 			rangesOverMap, nullRejected >= 2, numeric, emptyShown) +
 		"def jwtAlgNames : List (String × String) := [\n  " + strings.Join(algs, ",\n  ") + "]\n"
